@@ -64,7 +64,7 @@ def run_mutant(m, verbose=False):
             return False, 'STALE: ' + err
         rc, out = run_check(m['property'], root, m.get('tier', 'quick'))
         want = m.get('expect', m['property'])
-        hit = [l for l in out.splitlines() if l.strip().startswith(want) and ('VIOLATION' not in l) and ' at ' in l]
+        hit = [l for l in out.splitlines() if l.startswith('  ') and l.strip().startswith(want) and ' at ' in l]
         if verbose:
             print(out)
         if rc == 1 and hit:
